@@ -6,6 +6,9 @@ import (
 	"strings"
 
 	"github.com/microcosm-cc/bluemonday"
+	"golang.org/x/net/html"
+
+	"verif/harness/internal/obs"
 
 	"verif/harness/internal/run"
 	"verif/harness/internal/spec"
@@ -18,7 +21,7 @@ func init() {
 		ID:    "C17",
 		Level: "model_checking",
 		Rule: "explicit-state search over builder histories: every sequence of <=3 (thorough 4) calls over a 49-call alphabet (element / attribute / style rules in lower- and upper-case spellings and every scope; every boolean option with true and false; skip/keep content on two names in two spellings; scheme registrations incl. custom checks and patterns; two sandbox sets; rewriter) is executed on a fresh real policy. " +
-			"Abstract state (reference model) = canonical rule set of the harness's spec view (names lower-cased, duplicates and order removed, last value of each switch, documented couplings). Conformance: every history reaching an abstract state must reproduce, byte for byte, the probe-output vector (46 probe documents) of the first history that reached it. " +
+			"Abstract state (reference model) = canonical rule set of the harness's spec view (names lower-cased, duplicates and order removed, last value of each switch, documented couplings). Additivity: after one more AllowElements / AllowElementsMatching / AllowAttrs / AllowNoAttrs call every tag and attribute kept before is still kept (histories <=3). Conformance: every history reaching an abstract state must reproduce, byte for byte, the probe-output vector (46 probe documents) of the first history that reached it. " +
 			"Independence: (first, in a pristine process) for every base and every call of the alphabet, a fresh policy built after another instance was extended, and the instance built before, reproduce the original vector; then for every pair of histories (A of length <=2, B of length <=1; B of length 2 next to A of length <=1 on the plain base) over a 13-call sub-alphabet and every interleaving of the two, built on two policy objects from each of NewPolicy / UGCPolicy / StrictPolicy, policy A's vector equals A built alone, before and after B is extended. " +
 			"states = abstract states reached, transitions = histories executed (each is one path from the initial state), traces validated = histories replayed against the implementation (all of them); non-trivial = histories that reached an already-visited abstract state through a different call sequence.",
 		Assumptions: []string{"the reference model is internal/spec (ViewOf + Canon); probe documents are listed in internal/checks/c17.go"},
@@ -178,6 +181,39 @@ func runC17(c *run.Ctx) {
 		hist []C
 	}
 	refs := map[string]*ref{}
+	// additive calls never take anything away: every tag and attribute kept under a history is still
+	// kept after one more AllowElements / AllowElementsMatching / AllowAttrs / AllowNoAttrs call
+	// (checked for histories of length <=2 plus the additive call)
+	additive := func(call C) bool {
+		switch call.Op {
+		case "AllowElements", "AllowElementsMatching", "AllowAttrs", "AllowNoAttrs":
+			return true
+		}
+		return false
+	}
+	mono := func(h []C) {
+		last := h[len(h)-1]
+		if len(h) > 3 || !additive(last) {
+			return
+		}
+		pv, pm1 := probeVector(spec.Build(spec.Spec{Base: "new", Calls: h[:len(h)-1]}), c17Probes)
+		cv, pm2 := probeVector(spec.Build(spec.Spec{Base: "new", Calls: h}), c17Probes)
+		c.Eval()
+		c.Transitions++
+		c.Traces++
+		if pm1 != "" || pm2 != "" {
+			return
+		}
+		for i := range pv {
+			if lost := keptButLost(pv[i], cv[i]); lost != "" {
+				c.Violate("not-additive|"+last.Op, fmt.Sprintf("after one more %s call, %s that was kept before is gone on probe %s: %s gives %s, %s gives %s",
+					last.Op, lost, run.Q(c17Probes[i]), histStr(h[:len(h)-1]), run.Q(pv[i]), histStr(h), run.Q(cv[i])), c17Case{Mode: "additive", A: append([]C{}, h...)})
+				c.Outcome("violation|not-additive")
+				return
+			}
+		}
+		c.Outcome("additive-call-keeps-everything")
+	}
 	hist := make([]C, 0, depth)
 	var rec func()
 	rec = func() {
@@ -189,6 +225,9 @@ func runC17(c *run.Ctx) {
 		h := run.Hash128([]byte(key))
 		// all histories of one abstract state are handled by the same shard
 		if int(h[0]%uint64(c.NShards)) == c.Shard {
+			if len(hist) > 0 {
+				mono(hist)
+			}
 			c.Trace(func() string { return histStr(hist) })
 			p := spec.Build(s)
 			vec, pm := probeVector(p, c17Probes)
@@ -325,6 +364,31 @@ func runC17(c *run.Ctx) {
 	}
 }
 
+// keptButLost reports a tag or attribute present in the re-tokenised `before` output that is
+// missing from `after` (multiset comparison of element names and of element.attribute names).
+func keptButLost(before, after string) string {
+	count := func(s string) map[string]int {
+		m := map[string]int{}
+		for _, t := range obs.Retok(s) {
+			switch t.Type {
+			case html.StartTagToken, html.SelfClosingTagToken, html.EndTagToken:
+				m["<"+t.Name+">"]++
+				for _, a := range t.Attr {
+					m[t.Name+"."+a.Key]++
+				}
+			}
+		}
+		return m
+	}
+	b, a := count(before), count(after)
+	for k, n := range b {
+		if a[k] < n {
+			return k
+		}
+	}
+	return ""
+}
+
 func lastOp(h []C) string {
 	if len(h) == 0 {
 		return "empty"
@@ -356,6 +420,18 @@ func replayC17(raw json.RawMessage) (bool, string) {
 			return false, "same behaviour"
 		}
 		return true, fmt.Sprintf("probe %s: %s vs %s", run.Q(c17Probes[i]), run.Q(va[i]), run.Q(vb[i]))
+	case "additive":
+		if len(x.A) == 0 {
+			return false, "empty history"
+		}
+		pv, _ := probeVector(spec.Build(spec.Spec{Base: "new", Calls: x.A[:len(x.A)-1]}), c17Probes)
+		cv, _ := probeVector(spec.Build(spec.Spec{Base: "new", Calls: x.A}), c17Probes)
+		for i := range pv {
+			if lost := keptButLost(pv[i], cv[i]); lost != "" {
+				return true, fmt.Sprintf("%s lost on probe %s: %s -> %s", lost, run.Q(c17Probes[i]), run.Q(pv[i]), run.Q(cv[i]))
+			}
+		}
+		return false, "additive call keeps everything"
 	case "fresh-after":
 		// runs in a pristine process (bin/check replay and the confirmation step start one per case):
 		// reference vectors first, then the recorded sequence of scratch instances, then compare
